@@ -609,5 +609,101 @@ def _run_validator_init(self, res):
 DeriveTask._run_validator_init = _run_validator_init
 
 
+# ------------------------------------------------------------------------------------------------
+# validators._generate_legacy_type_checks: the closures it hands to TypeChecker.redefine_many
+class PyTypesV:
+    """the (flattened) tuple of Python types of one legacy type name: abstract; `bool in pytypes` is the Bool `has_bool`,
+    isinstance(x, pytypes) the uninterpreted predicate legacy_isinstance(x) (x a JSON value)"""
+    def __init__(self, name, flattened):
+        self.name, self.flattened = name, flattened
+
+
+legacy_isinstance = z3.Function("legacy_isinstance", V, smt.B)
+legacy_has_bool = z3.Bool("legacy_bool_in_pytypes")
+
+
+def _legacy_ctx(root):
+    repo = extract.Repo(root)
+    ctx = Ctx(repo, contracts={}, config={})
+    flattened = []
+
+    class FlattenC(core.Contract):
+        key = "_utils:flatten"
+
+        def apply(self, I, s, a, k, fref):
+            if len(a) != 1 or k or not isinstance(a[0], PyTypesV) or a[0].flattened:
+                raise OutOfSubset("flatten(%r)" % (a,))
+            v = PyTypesV(a[0].name, True)
+            flattened.append(v)
+            return [(s, v)]
+    ctx.contracts[FlattenC.key] = FlattenC()
+
+    def isinstance_hook(I, s, x, tv):
+        if isinstance(tv, PyTypesV) and tv.flattened and isinstance(x, SV):
+            return [(s, SB(legacy_isinstance(x.t)))]
+        return None
+
+    def in_hook(I, s, x, c):
+        if isinstance(c, PyTypesV) and c.flattened and isinstance(x, (ClassRef, Builtin)) and getattr(x, "name", None) == "bool":
+            return [(s, SB(legacy_has_bool))]
+        return None
+    ctx.config.update(isinstance_hook=isinstance_hook, in_hook=in_hook)
+    return repo, ctx, flattened
+
+
+def _run_legacy_checks(self, res):
+    """_generate_legacy_type_checks, the part C16 / C18 rely on: the closures handed to TypeChecker.redefine_many are pure -
+    gen_type_check(pytypes) writes nothing and returns a NEW function (the closure type_check over the flattened types), and
+    type_check(checker, x) writes nothing for any JSON value x and does not touch the checker it is given.  (What the
+    closure answers - isinstance(x, types), booleans only when bool is listed - is the meaning of the deprecated argument
+    for the NEW validator; no listed property states it, so it is computed but not an obligation of any check.)"""
+    # (1) gen_type_check
+    repo, ctx, flattened = _legacy_ctx(self.root)
+    unit = repo.unit("validators:_generate_legacy_type_checks.gen_type_check")
+    res["function"] = "validators:_generate_legacy_type_checks.{gen_type_check,type_check}"
+    hashes = unit.source_hash()
+    I = Interp(ctx)
+    st = State()
+    st.unit = unit
+    given = PyTypesV("pytypes", False)
+    outs = I.run_unit(unit, st, [given], {})
+    res["paths"] += len(outs)
+    obls = list(ctx.obligations)
+    for n, (s, ctl) in enumerate(outs):
+        nm = "%s/W/gen_type_check#%d" % (self.name, n + 1)
+        if ctl[0] != "return":
+            continue
+        r = ctl[1]
+        ok = isinstance(r, FuncRef) and r.key.startswith("validators:_generate_legacy_type_checks.gen_type_check.") and \
+            not s.ghost.get("attrs") and not s.ghost.get("map_writes")
+        obls.append(core.Obligation(nm, "W", s.pc, z3.BoolVal(bool(ok)),
+                                    note="gen_type_check writes nothing and returns a new function defined inside it (a closure; nothing shared with pre-existing checkers)"))
+    self.finish(res, ctx, obls)
+    # (2) type_check, for every JSON value
+    repo, ctx, _ = _legacy_ctx(self.root)
+    unit = repo.unit("validators:_generate_legacy_type_checks.gen_type_check.type_check")
+    hashes += unit.source_hash()
+    I = Interp(ctx)
+    st = State()
+    st.unit = unit
+    st.closure = {"pytypes": PyTypesV("pytypes", True)}
+    x = SV(z3.Const("instance", V))
+    outs = I.run_unit(unit, st, [Ident("checker"), x], {})
+    res["paths"] += len(outs)
+    obls = list(ctx.obligations)
+    from pyvc.interp import truth
+    for n, (s, ctl) in enumerate(outs):
+        nm = "%s/W/type_check#%d" % (self.name, n + 1)
+        if ctl[0] != "return":
+            continue
+        obls.append(core.Obligation(nm + ".pure", "W", s.pc, z3.BoolVal(not s.ghost.get("attrs") and not s.ghost.get("map_writes")),
+                                    note="a legacy type check writes nothing"))
+    self.finish(res, ctx, obls)
+    res["source_hash"] = hashes
+
+
+DeriveTask._run_legacy_checks = _run_legacy_checks
+
+
 def derive_tasks(root, timeout_ms=10000):
-    return [DeriveTask(root, w, timeout_ms) for w in ("extend", "fc_init", "fc_checks", "validator_init")]
+    return [DeriveTask(root, w, timeout_ms) for w in ("extend", "fc_init", "fc_checks", "validator_init", "legacy_checks")]
